@@ -759,6 +759,10 @@ class Explorer:
                 return False
             p.assign[k] = v
             return True
+        # class invariant established by the constructor: a field that holds an instance of T on entry of every public method
+        for f_, t_ in getattr(self, "field_types", {}).items():
+            if atom == "isinstance(self.%s@entry, %s)" % (f_, t_) and val is False:
+                return False
         # documented parameter types: `X is None or isinstance(X, T)`
         for x, t in getattr(self, "type_assumptions", {}).items():
             k_none, k_inst = "param:%s Is None" % x, "isinstance(param:%s, %s)" % (x, t)
